@@ -24,13 +24,14 @@ func (Canonical) Trailer(string) string          { return "" }
 type printer struct {
 	lay   Layout
 	lines []string
+	tiny  bool
 }
 
 func Print(p *Program, lay Layout) string {
 	if lay == nil {
 		lay = Canonical{}
 	}
-	pr := &printer{lay: lay}
+	pr := &printer{lay: lay, tiny: p.Tiny}
 	pr.emit("", "package "+p.Pkg, "pkg")
 	if len(p.Imports) > 0 {
 		pr.blank()
@@ -471,6 +472,9 @@ func (pr *printer) inl(e Expr) (string, int) {
 		var es []string
 		for _, el := range x.Elems {
 			es = append(es, pr.inline(el, 0))
+		}
+		if pr.tiny {
+			return "[" + strings.Join(es, "; ") + "]", 1 // tinyfo parses a slice literal as a term, not as an atom
 		}
 		return "[" + strings.Join(es, "; ") + "]", 0
 	case *Lambda:
